@@ -422,10 +422,17 @@ def cache_correspondence(ctx: Ctx):
     from numbers_parser.numbers_cache import Cacheable, cache
     rng = ctx.rng
     req, out = [], []
-    for _ in range(400 if ctx.quick else 20000):
-        n = rng.randrange(1, 4)
-        pool = [rng.choice([0, 1, -1, 2, 10, 12, -3, 100, 65536, -65536, 10**9]) for _ in range(4)]
-        calls = [tuple(rng.choice(pool) for _ in range(n)) for _ in range(rng.randrange(1, 9))]
+    # argument tuples whose decimal texts run into each other unless the key keeps them apart (1|12 vs 11|2, -1|2 vs -12, ...)
+    fixed = [[(1, 12), (11, 2), (1, 12)], [(11, 2), (1, 12)], [(1, 23, 4), (12, 3, 4), (1, 2, 34)], [(10, 0), (1, 0), (100, 0)],
+             [(1, -1), (1, 1)], [(0, 0), (0,) * 2, (0, 10), (1, 0)], [(12,), (1,), (2,)]]
+    for it in range((400 if ctx.quick else 20000) + len(fixed)):
+        if it < len(fixed):
+            calls = fixed[it]
+            n = len(calls[0])
+        else:
+            n = rng.randrange(1, 4)
+            pool = [rng.choice([0, 1, -1, 2, 10, 12, -3, 100, 65536, -65536, 10**9]) for _ in range(4)]
+            calls = [tuple(rng.choice(pool) for _ in range(n)) for _ in range(rng.randrange(1, 9))]
         misses = []
 
         class T(Cacheable):
